@@ -342,6 +342,33 @@ Section S.
     assert ((r_end r <? now - set_step st) = true) as E2 by (apply Z.ltb_lt; exact H2).
     rewrite E1, E2. cbn [andb]. destruct (r_end r <? now - vs_min_age s); reflexivity.
   Qed.
+  (** --- step 5: a matcher whose single-matcher selector never matched ---------------------------------- *)
+
+  Lemma range_probe_pres_never now st pres : 0 <= set_step st ->
+    (forall t, In t (probe_points now st) -> pres t = false) ->
+    range_probe_pres now st pres = Some [].
+  Proof.
+    intros Hstep Hnever. unfold range_probe_pres. unfold probe_points in Hnever.
+    assert (range_requests now st <> None) as Htot.
+    { unfold range_requests, range_requests_for.
+      pose proof (query_slices_total (now - set_lookback st) now (set_lookback st) (set_step st) Hstep) as Htot.
+      destruct (query_slices _ _ _ _ _) as [sl|]; [discriminate|contradiction]. }
+    destruct (range_requests now st) as [rs|]; [|contradiction]. clear Htot.
+    rewrite flat_map_nil; [reflexivity|].
+    intros r Hr. unfold serve_range, per_slice. cbn [fold_left fst snd].
+    unfold server_samples. rewrite filter_none; [reflexivity|].
+    intros t Ht. apply Hnever. apply in_flat_map. exists r. split; assumption.
+  Qed.
+
+  Lemma matcher_never_matches d now st up bg s lm : 0 < set_step st -> 0 <= set_lookback st ->
+    (forall t, In t (probe_points now st) -> instant_match re d t (label_selector s lm) = []) ->
+    step567_one re d now st up bg s lm = MProblems [nonexistent (sev_of st s)].
+  Proof.
+    intros Hp Hl Hnever. unfold step567_one, probe_with_gaps.
+    rewrite range_probe_pres_never; [|lia|intros t Ht; unfold sel_presence; rewrite (Hnever t Ht); reflexivity].
+    pose proof (gaps_of_total now st [] up Hp Hl) as Hg. destruct (gaps_of now st [] up); [reflexivity|contradiction].
+  Qed.
+
   (** a selector that matches the labels of no stored series returns nothing at any instant *)
   Lemma instant_match_no_label_match d t ms :
     forallb (fun x => negb (sel_matches re ms (ts_labels x))) d = true -> instant_match re d t ms = [].
